@@ -71,6 +71,8 @@ type HeldView struct {
 type World struct {
 	Dir                                           string
 	PcapDir, IndexDir, SnapDir, StateDir, ConvDir string
+	// DoubleJobs: the service started a job of a kind while another job of that kind was in flight
+	DoubleJobs []string
 	// ConvGen: how often the executable of a converter was replaced by another one (part of what it outputs)
 	ConvGen map[string]int
 	// Listeners: closers of event streams the client program opened and does not read
@@ -297,7 +299,11 @@ func (w *World) point(name string, args []any) {
 				w.lastTagBegin = n
 			}
 		}
-		if old := w.parked[kind]; old != nil && !old.completing {
+		if old := w.parked[kind]; old != nil && !old.completing && owner == w.Mgr && !w.closed {
+			// the service itself started a second job of a kind while the first one has not delivered its result: its
+			// bookkeeping (one flag / one queue head per kind) is made for one job at a time
+			w.DoubleJobs = append(w.DoubleJobs, fmt.Sprintf("the service started a second %s job while %s has not completed", kind, old.Name()))
+		} else if old != nil && !old.completing {
 			w.Errors = append(w.Errors, fmt.Sprintf("second %s job began while %s is parked (point from manager %p, this world's manager %p, closed=%v)", kind, old.Name(), owner, w.Mgr, w.closed))
 		}
 		w.parked[kind] = j
@@ -463,6 +469,10 @@ func NewWorldIn(dir, converterBin string, populate bool) (*World, error) {
 			if err := os.Symlink(converterBin, filepath.Join(w.ConvDir, "convflaky2")); err != nil {
 				return nil, err
 			}
+			// one that answers the first request for every stream with a chunk whose time cannot be read and goes on
+			if err := os.Symlink(converterBin, filepath.Join(w.ConvDir, "convoddtime")); err != nil {
+				return nil, err
+			}
 		}
 	}
 	if err := w.start(); err != nil {
@@ -488,6 +498,12 @@ func (w *World) start() error {
 		}
 	}
 	mgr, err := manager.New(w.PcapDir, w.IndexDir, w.SnapDir, w.StateDir, w.ConvDir, watch)
+	// the machine allows a user 128 inotify instances; other checkers running at the same time can use them up for a
+	// moment.  That is a shortage of the environment, not an answer of the service: wait for it to pass
+	for try := 0; err != nil && strings.Contains(err.Error(), "inotify") && try < 120; try++ {
+		time.Sleep(500 * time.Millisecond)
+		mgr, err = manager.New(w.PcapDir, w.IndexDir, w.SnapDir, w.StateDir, w.ConvDir, watch)
+	}
 	if err == nil {
 		w.adopted.Range(func(k, v any) bool {
 			if k != any(mgr) {
